@@ -756,6 +756,14 @@ def _must_refuse_or(fn):
         raise Refused(repr(e))
 
 
+def _try(fn):
+    """Part of a bundle of calls: a refusal of one part (its message is scanned) does not hide the others."""
+    try:
+        return fn()
+    except Exception as e:
+        return 'raised: %r' % (e,)
+
+
 def key_views(cls):
     V = [
         (cls + '.public', lambda o: _pub(o)),
@@ -766,17 +774,17 @@ def key_views(cls):
         (cls + '.public>info', lambda o: printed(_pub(o).info)),
         (cls + '.public>as_dict(include_private)', lambda o: _must_refuse_or(
             lambda: _pub(o).as_dict(include_private=True))),
-        (cls + '.public>private_accessors', lambda o: _must_refuse_or(
-            lambda: (lambda p: (p.as_hex(private=True), p.as_bytes(private=True), int(p) if cls == 'Key' else None,
-                                p.private_hex, p.private_byte, p.secret))(_pub(o)))),
+        (cls + '.public>private_accessors', lambda o: (lambda p: [
+            _try(lambda: p.as_hex(private=True)), _try(lambda: p.as_bytes(private=True)), _try(lambda: int(p)),
+            p.private_hex, p.private_byte, p.secret, _try(lambda: hash(p))])(_pub(o))),
         (cls + '.public>wif', lambda o: _must_refuse_or(lambda: Key_wif(_pub(o)))),
-        (cls + '.public>address_obj', lambda o: (lambda a: (a, a.as_dict(), a.as_json(), repr(a)))(
+        (cls + '.public>address_obj', lambda o: (lambda a: (a, a.as_dict(), _try(a.as_json), repr(a)))(
             _pub(o).address_obj)),
         (cls + '.as_dict', lambda o: o.as_dict()),
         (cls + '.as_json', lambda o: o.as_json()),
         (cls + '.repr', lambda o: repr(o)),
         (cls + '.str', lambda o: (str(o), bytes(o), o.hex())),
-        (cls + '.address_obj', lambda o: (lambda a: (a, a.as_dict(), a.as_json(), repr(a), str(a)))(o.address_obj)),
+        (cls + '.address_obj', lambda o: (lambda a: (a, a.as_dict(), _try(a.as_json), repr(a), str(a)))(o.address_obj)),
     ]
     return V
 
@@ -1336,10 +1344,11 @@ def w_views():
         ('Wallet.as_json', lambda b: b.w.as_json()),
         ('Wallet.info', lambda b: printed(b.w.info)),
         ('Wallet.info(detail=5)', lambda b: printed(lambda: b.w.info(detail=5))),       # extended alphabet only
-        ('Wallet.keys(as_dict)', lambda b: (b.w.keys(as_dict=True), b.w.keys_addresses(as_dict=True),
-                                            b.w.keys_networks(as_dict=True), b.w.keys_accounts(as_dict=True),
-                                            b.w.keys_address_payment(as_dict=True),
-                                            b.w.keys_address_change(as_dict=True))),
+        ('Wallet.keys(as_dict)', lambda b: (b.w.keys(as_dict=True), _try(lambda: b.w.keys_addresses(as_dict=True)),
+                                            _try(lambda: b.w.keys_networks(as_dict=True)),
+                                            _try(lambda: b.w.keys_accounts(as_dict=True)),
+                                            _try(lambda: b.w.keys_address_payment(as_dict=True)),
+                                            _try(lambda: b.w.keys_address_change(as_dict=True)))),
         ('Wallet.keys>repr', lambda b: repr(b.w.keys())),
         ('Wallet.lists', lambda b: (b.w.addresslist(), b.w.accounts(), b.w.networks(as_dict=True), b.w.utxos(),
                                     b.w.balance(), b.w.witness_types(), b.w.name, b.w.owner)),
